@@ -71,7 +71,7 @@ type argMaker struct {
 	mon *cbMon
 }
 
-var c14Idents = []string{"a", "b", "x", "T", "foo", "err", "string", "v1"}
+var c14Idents = []string{"a", "b", "x", "T", "foo", "err", "string", "v1", "_", "nil", "true", "iota", "len", "init", "main"}
 var c14Ops = []string{"+", "-", "*", "&", ":=", "=", "==", "<-", "...", "!", "|", "~", ":", ",", "&&", "++", "."}
 var c14Lits = []interface{}{true, "s", "a\nb", 1, -5, 1.5, 1e-7, 2 + 3i, float32(0.1), int8(-3), uint8(200), int64(1) << 40, uint(7), uintptr(9), complex64(1), uint16(1), uint32(1), uint64(1), int16(1), int32(1), false, "", 0, 1e21, 100000.0}
 
